@@ -12,23 +12,30 @@ Behaviours == {"proper",        \* advertises STARTTLS, 220, handshake succeeds
                "notoffered",    \* EHLO reply has no STARTTLS
                "refused",       \* advertises it, answers 454
                "garbage",       \* 220, then not a TLS handshake
-               "injected"}      \* 220 followed, in the same segment, by plaintext that looks like replies; then a proper handshake
+               "injected",      \* 220 followed, in the same segment, by plaintext that looks like replies; then a proper handshake
+               "heloonly"}      \* proper upgrade, but inside TLS the server refuses EHLO (502) and accepts HELO: no extensions there
 Entries == {"DialStartTLS", "NewClientStartTLS", "SendMail", "SendMailAuth"}
 
-Upgrades(b) == b \in {"proper", "injected"}
+Upgrades(b) == b \in {"proper", "injected", "heloonly"}
 
 \* verbs that may appear on the wire before TLS
 PlaintextAllowed(b) == {"EHLO", "STARTTLS"} \cup (IF Upgrades(b) THEN {} ELSE {"QUIT"})
 
-Succeeds(e, b) == Upgrades(b)
+\* (authentication needs AUTH to be offered inside TLS)
+Succeeds(e, b) == Upgrades(b) /\ ~(e = "SendMailAuth" /\ b = "heloonly")
 
 \* after a successful upgrade the client's capabilities are those of the EHLO
 \* reply received INSIDE TLS - never those seen or injected in plaintext
-CapsFrom(e, b) == IF Upgrades(b) THEN "tls" ELSE "none"
+\* ("helo": the HELO fallback inside TLS - no extension at all, whatever the plaintext EHLO listed)
+CapsFrom(e, b) == IF b = "heloonly" THEN "helo" ELSE IF Upgrades(b) THEN "tls" ELSE "none"
 
 \* inside TLS, in order
 TLSVerbs(e, b) ==
   IF ~Upgrades(b) THEN <<>>
+  ELSE IF b = "heloonly" THEN
+       CASE e \in {"DialStartTLS", "NewClientStartTLS"} -> <<"EHLO", "HELO">>
+         [] e = "SendMail" -> <<"EHLO", "HELO", "MAIL", "RCPT", "DATA", "QUIT">>
+         [] OTHER -> <<"EHLO", "HELO">>
   ELSE CASE e \in {"DialStartTLS", "NewClientStartTLS"} -> <<"EHLO">>     \* re-negotiated on the first use
          [] e = "SendMail" -> <<"EHLO", "MAIL", "RCPT", "DATA", "QUIT">>
          [] OTHER -> <<"EHLO", "AUTH", "MAIL", "RCPT", "DATA", "QUIT">>
